@@ -15,7 +15,6 @@ from authlib.common.encoding import to_unicode
 from authlib.common.urls import urlparse
 
 from .util import escape
-from .util import unescape
 
 SIGNATURE_HMAC_SHA1 = "HMAC-SHA1"
 SIGNATURE_RSA_SHA1 = "RSA-SHA1"
@@ -66,8 +65,6 @@ def construct_base_string(method, uri, params, host=None):
             continue
 
         # ensure oauth params are unescaped
-        if k.startswith("oauth_"):
-            v = unescape(v)
         unescaped_params.append((k, v))
 
     # Normalize parameters per Section 3.4.1.3.2
